@@ -163,12 +163,14 @@ def classify(p):
 
 # ---- pathname expansion -----------------------------------------------------------------------------------
 
-NAMES = ["a", "b", "ab", ".a", ".b", "A", "a b", "[", "*", "d/", "d/.x", "d/y", "c.a", "d/z.x"]
+NAMES = ["a", "b", "ab", ".a", ".b", "A", "a b", "[", "*", "d/", "d/.x", "d/y", "c.a", "d/z.x", ".d/", ".d/.x", ".d/y"]
 GLOBS = ["*", "?", "a*", "*b", "[ab]", "[!a]*", ".*", ".?", "*/", "*/*", "d/*", "d/.*", "??", "[[]", "\\*", "a?", "[A-Z]", "[a-z]*",
          "*[!b]", "* *", "a\\ b", "'a b'", "\"*\"", "*''", "''*", ".[ab]", "[.]a", "?a", "d*/y", "{a,b}*", "nomatch*", "*/.?", "+(a|b)",
          "@(a|b|ab)", "!(a)", "?(a)b", "*(a)", "d/!(y)", ".!(a)", "[[:alpha:]]", "[[:upper:]]*", "[!.]*", "a*b", "**", "./*", "./.*",
          # quoted / escaped segments glued to wildcards: the dot-file rule looks at the *start* of the component only
-         "*\".a\"", "*'.b'", "d/*\".x\"", "?\".a\"", "\".\"*", "'.'?", "\"\"*", "*\"\"", "\"a\"*", "*\\.a", "\\.*", "d/\".\"*", "*\"a\"", "[.]*", "*.a"]
+         "*\".a\"", "*'.b'", "d/*\".x\"", "?\".a\"", "\".\"*", "'.'?", "\"\"*", "*\"\"", "\"a\"*", "*\\.a", "\\.*", "d/\".\"*", "*\"a\"", "[.]*", "*.a",
+         # several components: the dot-file rule is decided per component
+         ".*/*", ".d*/*", ".?/*", "*/.*", ".*/.*", "?*/*", ".d/*", "./.d/*"]
 GLOBOPTS = [(), ("dotglob",), ("nullglob",), ("failglob",), ("nocaseglob",), ("extglob",), ("dotglob", "extglob"), ("nullglob", "dotglob")]
 
 
